@@ -21,6 +21,7 @@ func init() {
 			c.run("C17-S1", "shared with C13-R5: the tunnel pumps look up their relay per chunk (a finished transfer's tunnel cannot feed the next handshake), park first while handshaking, forward on their own direction", c13R5)
 			c.run("C17-R7", "GUARD-DOM: relay adoption gate", c17R7)
 			c.run("C17-R8", "LAUNCH: accept loops, greeting checks, the timed dial and the tunnel pumps are started with go", c17Launch)
+			c.run("C17-S2", "shared with C14-R7: the relay routes its own lines through the tunnel only when both ends agreed to use it (else the answer lands in a connection nobody reads and the in-band fallback fails)", c14R7)
 		})
 }
 
